@@ -107,6 +107,35 @@ pub fn run(tier: Tier, seed: u64) -> i32 {
         });
         rep.add(b);
     }
+    // an allocation cut short by a storage fault and repeated by the caller, then another file allocating, then both
+    // files written again: whichever table write the fault hit, no write of the rest of the session may land in a cluster
+    // of the other file (a chain that already names a cluster still marked free would hand it to both)
+    if !rep.failed() {
+        let vols: Vec<VolCfg> = [1usize, 8, 12, 3].iter().map(|p| VolCfg::from_preset(*p)).collect();
+        let hp_ref = &hp;
+        let b = run::run_indexed("allocation_hit_by_a_fault_then_another_file_allocates", (vols.len() * 2) as u64, |i, blk| {
+            let vol = &vols[i as usize / 2];
+            let intr = i % 2 == 1;
+            let cs = vol.cluster_size();
+            for k in 0..80u16 {
+                let ops = alloc_fault_ops(cs, k, intr);
+                let case = Case { vol: vol.clone(), ops };
+                let mut out = hist::eval_case(hp_ref, &case);
+                let touched = out.classes.contains_key("cases_with_write_failed_with_injected_fault_then_retried") || out.classes.contains_key("cases_with_write_survived_injected_fault");
+                out.nontrivial = touched;
+                out.hash = run::hash_str(&format!("allocfault|{}|{}|{:?}", k, intr, vol));
+                blk.record(&out, || serde_json::json!({"vol": vol, "fault_at_device_call": k, "interrupted": intr}));
+                if let Some(m) = out.violation {
+                    return Some(run::Failure { message: format!("fault at device call {} of an allocating write, write repeated: {}", k, m), case: serde_json::to_value(&case).unwrap(), kind: "history".into() });
+                }
+                if !touched {
+                    break;
+                }
+            }
+            None
+        });
+        rep.add(b);
+    }
     if !rep.failed() {
         let mut lcs = c20::large_cfgs();
         for l in lcs.iter_mut() {
@@ -133,4 +162,29 @@ pub fn run(tier: Tier, seed: u64) -> i32 {
         rep.add(b);
     }
     rep.finish()
+}
+
+/// two files, the second cluster of the first one allocated by a write that a storage fault hits at its k-th device
+/// call and that the caller repeats; then the other file allocates, then both are written again and read back
+pub fn alloc_fault_ops(cs: u32, k: u16, intr: bool) -> Vec<Op> {
+    vec![
+        Op::CreateFile { via: 0, path: "a.bin".into(), keep: 1 },
+        Op::Write { h: 0, len: cs, seed: 1 },
+        // starts on the boundary at the end of the chain: allocates and links a cluster
+        Op::WriteRetry { h: 0, len: cs, seed: 2, k, interrupted: intr },
+        Op::CreateFile { via: 0, path: "b.bin".into(), keep: 2 },
+        Op::Write { h: 1, len: cs, seed: 3 },
+        Op::Write { h: 1, len: cs, seed: 4 },
+        Op::Write { h: 0, len: cs, seed: 5 },
+        Op::Seek { h: 0, whence: 0, off: cs as i64 + 3 },
+        Op::Write { h: 0, len: 20, seed: 6 },
+        Op::Seek { h: 1, whence: 0, off: 5 },
+        Op::Write { h: 1, len: 20, seed: 7 },
+        Op::CloseFile { h: 0 },
+        Op::CloseFile { h: 1 },
+        Op::OpenFile { via: 0, path: "b.bin".into(), keep: 1 },
+        Op::Read { h: 0, len: cs },
+        Op::Read { h: 0, len: cs },
+        Op::CloseFile { h: 0 },
+    ]
 }
